@@ -48,6 +48,11 @@ func Unwrap(data []byte) (tag TlvTag, value []byte, err error) {
 		return TlvTag(0), nil, fmt.Errorf("[Unwrap] ParseTagAndLength error: %w", err)
 	}
 
+	// NB ParseLength reports an indefinite length (0x80) as -1, which we cannot unwrap
+	if length < 0 {
+		return TlvTag(0), nil, fmt.Errorf("[Unwrap] indefinite length is not supported")
+	}
+
 	value, err = utils.BytesFromBuffer(tmpBuf, int(length))
 	if err != nil {
 		return TlvTag(0), nil, fmt.Errorf("[Unwrap] ByteBuffer error: %w", err)
